@@ -27,8 +27,14 @@ FLAVOURS = {
     "sched": dict(cxx="g++", cc="gcc", flags="-O3 -g1", ld="", shim=True),
     "sched-asan": dict(cxx="g++", cc="gcc", flags="-O3 -g1 -fsanitize=address -fno-omit-frame-pointer",
                   ld="-fsanitize=address", shim=True),
-    "sched-tsan": dict(cxx="g++", cc="gcc", flags="-O3 -g1 -fsanitize=thread", ld="-fsanitize=thread", shim=True),
-    "free-tsan": dict(cxx="g++", cc="gcc", flags="-O3 -g1 -fsanitize=thread", ld="-fsanitize=thread"),
+    # The network evaluation kernels touch only data owned by the evaluating thread (accumulator stack, scratch vectors) and the
+    # read-only weights; instrumenting their byte-wise loops makes a search ~100 times slower under ThreadSanitizer, which limited the
+    # race check to toy searches. They are compiled without instrumentation in the TSan flavours (accesses made there are invisible to
+    # the detector: stated as an assumption of C09); everything else, including Evaluate and the evaluation hash tables, is instrumented.
+    "sched-tsan": dict(cxx="g++", cc="gcc", flags="-O3 -g1 -fsanitize=thread", ld="-fsanitize=thread", shim=True,
+                       fileflags={"lib/texellib/nn/nneval.cpp": "-fno-sanitize=thread"}),
+    "free-tsan": dict(cxx="g++", cc="gcc", flags="-O3 -g1 -fsanitize=thread", ld="-fsanitize=thread",
+                      fileflags={"lib/texellib/nn/nneval.cpp": "-fno-sanitize=thread"}),
     "simd-generic": dict(cxx="g++", cc="gcc", flags="-O3", ld=""),
     "simd-ssse3": dict(cxx="g++", cc="gcc", flags="-O3 -mssse3 -DUSE_SSSE3", ld=""),
     "simd-avx2": dict(cxx="g++", cc="gcc", flags="-O3 -mssse3 -mavx2 -DUSE_SSSE3 -DUSE_AVX2", ld=""),
